@@ -149,8 +149,11 @@ def instance(rng, d: dict, rep_min: int = 1) -> dict:
         words = ["some ", "text, ", "more", " and ", "end."]
         bare = rng.random() < 0.3  # an occurrence of the mixed element that happens to hold elements only
         el["t"] = None if bare else rng.choice(words)
-        for _ in range(rng.randint(1, 3)):
-            k = instance(rng, rng.choice(d["inline"]), rep_min)
+        picks = [rng.randrange(len(d["inline"])) for _ in range(rng.randint(1, 3))]
+        if bare:
+            picks.sort()  # without any text the element is element-only: keep the declared order
+        for i in picks:
+            k = instance(rng, d["inline"][i], rep_min)
             k["l"] = None if bare else rng.choice(words)
             el["c"].append(k)
     else:
